@@ -29,27 +29,60 @@ class _Reached(BaseException):
     pass
 
 
-def planted(step_s=3600):
-    return synth.planted_record(step_s=step_s, recessions=((1, 7), (0, 8), (3, 9)))
+def planted(step_s=3600, scale=1):
+    """Planted record; levels, rain and drizzle multiplied by ``scale`` so that the number
+    of grid levels stays small whatever the grid step."""
+    scale = Fraction(scale)
+    rec = synth.planted_record(step_s=step_s, recessions=((1, 7), (0, 8), (3, 9)))
+    if scale != 1:
+        rec['zeta'] = [z * scale for z in rec['zeta']]
+        rec['rain'] = [r * scale for r in rec['rain']]
+    rec['scale'] = scale
+    return rec
+
+
+def scale_for(grid_step):
+    return Fraction(grid_step) / 4
 
 
 _DB_CACHE = {}
 
 
 def classified_db(grid_step, symbolic_rain=None):
-    """symsql connection after classify + set-zeta-grid on the planted record (R-mode)."""
-    m = pipeline.sym_modules('R')
-    rec = planted()
-    G = len(rec['rain']) - 1
-    rain = list(rec['rain'][:G])
+    """symsql connection after classify + set-zeta-grid on the planted record.
+
+    The classified state is concrete and is built once per process (outside the
+    path under exploration); every path works on its own copy.  Symbolic rain
+    intensities, if any, replace the stored values of storm steps *after*
+    classification (which is not under test here): the rain depth of each storm,
+    read through the view storm_total_rain_depth, becomes symbolic."""
+    key = ('base', str(grid_step))
+    if key not in _DB_CACHE:
+        m = pipeline.sym_modules('R')
+        sc = scale_for(grid_step)
+        rec = planted(scale=sc)
+        G = len(rec['rain']) - 1
+        saved = symx._ENGINE
+        symx._ENGINE = None
+        try:
+            with symx.single_path():
+                conn = symsql.Connection()
+                dbstate.build(conn, rec['epochs'][:G + 1], [True] * (G + 1), list(rec['rain'][:G]), rec['et'][:G],
+                              rec['zeta'][:G + 1], rec['step_s'])
+                m['classify'].classify_intervals(conn, 2 * sc, 4 * sc)
+                m['zeta_grid'].populate_zeta_grid(conn, grid_step)
+                conn.commit()
+        finally:
+            symx._ENGINE = saved
+        _DB_CACHE[key] = (conn.db, rec)
+    db, rec = _DB_CACHE[key]
+    conn = symsql.Connection(db.clone())
     if symbolic_rain:
+        t = conn.db.tables['rainfall_intensity']
         for i, v in symbolic_rain.items():
-            rain[i] = v
-    conn = symsql.Connection()
-    dbstate.build(conn, rec['epochs'][:G + 1], [True] * (G + 1), rain, rec['et'][:G], rec['zeta'][:G + 1], rec['step_s'])
-    m['classify'].classify_intervals(conn, Fraction(2), Fraction(4))
-    m['zeta_grid'].populate_zeta_grid(conn, grid_step)
-    conn.commit()
+            for row in t.rows:
+                if row['from_epoch'] == rec['epochs'][i]:
+                    row['rainfall_intensity_mm_h'] = v
     return conn, rec
 
 
@@ -132,7 +165,7 @@ def harness_R(eng, ctx):
     which = ctx['which']
     step = Fraction(ctx['step'])
     m = pipeline.sym_modules('R')
-    rec0 = planted()
+    rec0 = planted(scale=scale_for(step))
     # symbolic intensity on the first step of every storm (keeps the classification
     # of the planted record: values stay above the storm threshold)
     sym = {}
@@ -141,7 +174,7 @@ def harness_R(eng, ctx):
             if ev['kind'] == 'storm':
                 i = ev['first_step']
                 v = eng.real('rain%d' % i)
-                eng.assume(v > 2)
+                eng.assume(v > 2 * scale_for(step))
                 eng.assume(v < 1000)
                 sym[i] = v
     conn, rec = classified_db(step, sym)
@@ -192,9 +225,10 @@ def level_range(which, step):
     """Range of level numbers of the planted curve (concrete run, real code)."""
     key = (which, step)
     if key not in _DB_CACHE:
-        rec = planted()
+        sc = scale_for(step)
+        rec = planted(scale=sc)
         with pipeline.RealRun(synth.to_csv_texts(rec)) as rr:
-            errs = [rr.load(), rr.classify(2, 4), rr.zeta_grid(float(Fraction(step))), rr.rise() if which == 'rise' else rr.recession()]
+            errs = [rr.load(), rr.classify(2 * sc, 4 * sc), rr.zeta_grid(float(Fraction(step))), rr.rise() if which == 'rise' else rr.recession()]
             if any(e is not None for e in errs):
                 raise RuntimeError('planted workflow failed: %r' % errs)
             t = 'rising_interval_zeta' if which == 'rise' else 'recession_interval_zeta'
@@ -205,9 +239,10 @@ def level_range(which, step):
 
 def real_reference_run(which, step_txt, ref_text):
     """`spowtd rise|recession -r <ref>` of the real code on the planted record."""
-    rec = planted()
+    sc = scale_for(step_txt)
+    rec = planted(scale=sc)
     with pipeline.RealRun(synth.to_csv_texts(rec)) as rr:
-        errs = [rr.load(), rr.classify(2, 4), rr.zeta_grid(float(Fraction(step_txt)))]
+        errs = [rr.load(), rr.classify(2 * sc, 4 * sc), rr.zeta_grid(float(Fraction(step_txt)))]
         if any(e is not None for e in errs):
             return {'setup_error': repr(errs)}
         err = rr.rise(ref_text) if which == 'rise' else rr.recession(ref_text)
@@ -234,9 +269,9 @@ class C09(Check):
     def run(self):
         quick = self.tier == 'quick'
         steps = STEPS_QUICK if quick else STEPS_THOROUGH
-        K = 4096 if quick else 32768
+        K = 1024 if quick else 32768
         self.bounds = {'grid steps (mm)': steps, 'F: |k|': K, 'F: reference': 'fl(k*step) on-grid; fl((2k+1)*step/2) off-grid',
-                       'R: k': 'every level of the planted curve', 'dataset': 'planted record, 3 storms + 3 recessions, 1 h step'}
+                       'R: k': 'every level of the planted curve', 'dataset': 'planted record (3 storms + 3 recessions, 1 h step), levels scaled to about 10 grid levels per interval'}
         self.unit('spowtd.rise', 'compute_rise_offsets', 'find_rise_offsets')
         self.unit('spowtd.recession', 'compute_offsets', 'find_recession_offsets')
         self.unit('spowtd.schema.sql', 'views average_rising_depth, average_recession_time')
@@ -316,9 +351,10 @@ class C09(Check):
             want = float(ref)
             return out.get('error') is not None or not any(abs(z - want) < 1e-9 for z in out.get('zero_levels', [])), info
         if h.startswith('R_noref'):
-            rec = planted()
+            sc = scale_for(step)
+            rec = planted(scale=sc)
             with pipeline.RealRun(synth.to_csv_texts(rec)) as rr:
-                errs = [rr.load(), rr.classify(2, 4), rr.zeta_grid(float(step)), rr.rise() if which == 'rise' else rr.recession()]
+                errs = [rr.load(), rr.classify(2 * sc, 4 * sc), rr.zeta_grid(float(step)), rr.rise() if which == 'rise' else rr.recession()]
                 view = 'average_rising_depth' if which == 'rise' else 'average_recession_time'
                 col = 'mean_crossing_depth_mm' if which == 'rise' else 'elapsed_time_s'
                 rows = rr.query('SELECT zeta_mm, %s FROM %s ORDER BY zeta_mm' % (col, view)) if not any(errs) else []
@@ -344,7 +380,8 @@ def real_index(which, st, ref_text):
     real function with a dictionary that records the key looked up)."""
     import numpy as np
     mod = loader.real_module('spowtd.rise' if which == 'rise' else 'spowtd.recession')
-    rec = planted()
+    sc = scale_for(st)
+    rec = planted(scale=sc)
     seen = {}
 
     class Spy(dict):
@@ -359,7 +396,7 @@ def real_index(which, st, ref_text):
     mod.get_series_time_offsets = wrapped
     try:
         with pipeline.RealRun(synth.to_csv_texts(rec)) as rr:
-            errs = [rr.load(), rr.classify(2, 4), rr.zeta_grid(float(Fraction(st)))]
+            errs = [rr.load(), rr.classify(2 * sc, 4 * sc), rr.zeta_grid(float(Fraction(st)))]
             (rr.rise if which == 'rise' else rr.recession)(ref_text)
     finally:
         mod.get_series_time_offsets = orig
